@@ -27,6 +27,7 @@ import (
 	"github.com/cosmos/ibc-go/v11/testing/simapp"
 
 	"verif/harness/core"
+	"verif/harness/props/tokenworld"
 )
 
 func init() { core.Register("C34", "exploration", run) }
@@ -228,12 +229,17 @@ func run(c *core.C) {
 	}
 
 	if c.Replay != "" {
-		var r struct{ Path, Port, Channel, Port2, Channel2 string }
+		var r struct {
+			Path, Port, Channel, Port2, Channel2 string
+			Flow                                 *flowReplay
+		}
 		if err := c.LoadReplay(&r); err != nil {
 			c.Broken("replay: %v", err)
 			return
 		}
-		if r.Port != "" {
+		if r.Flow != nil {
+			replayFlow(c, flowWorlds(c), *r.Flow, &flowStats{distinctPaths: map[string]bool{}})
+		} else if r.Port != "" {
 			seen := map[string][2]string{}
 			evalEscrowPair(c, seen, r.Port, r.Channel)
 			evalEscrowPair(c, seen, r.Port2, r.Channel2)
@@ -324,6 +330,33 @@ func run(c *core.C) {
 	}
 	c.Sample(map[string]any{"port": ports[len(ports)-1], "channel": channels[len(channels)-1], "escrow": sdk.AccAddress(transfertypes.GetEscrowAddress(ports[len(ports)-1], channels[len(channels)-1])).String()})
 
+	// receive flow: the real OnRecvPacket path on real chains (see flow.go)
+	fst := &flowStats{distinctPaths: map[string]bool{}}
+	flowDepth := core.Pick(c, 3, 4)
+	for _, f := range flowWorlds(c) {
+		routes := []int{tokenworld.RV1}
+		if !c.Quick() && f.Chains == 2 && !f.Prefix {
+			routes = []int{tokenworld.RV1, tokenworld.RClient}
+		}
+		d := flowDepth
+		if len(routes) > 1 {
+			d = 3
+		}
+		exploreFlow(c, f, d, routes, fst)
+	}
+	evals += fst.transfers + fst.checks
+	c.Set("flow_transfer_sequences", fst.sequences)
+	c.Set("flow_transfers_executed", fst.transfers)
+	c.Set("flow_transfers_received", fst.received)
+	c.Set("flow_sends_refused", fst.refused)
+	c.Set("flow_chain_states_checked", fst.checks)
+	c.Set("flow_voucher_records_checked", fst.vouchers)
+	c.Set("flow_distinct_voucher_paths", len(fst.distinctPaths))
+	c.Set("flow_depth", flowDepth)
+	if fst.received < 2 || len(fst.distinctPaths) < 2 {
+		c.Broken("receive-flow part executed only %d successful receives / %d distinct voucher paths", fst.received, len(fst.distinctPaths))
+	}
+
 	c.Set("evaluations", evals)
 	c.Set("paths_accepted", accepted)
 	c.Set("paths_accepted_with_trace", traced)
@@ -333,8 +366,9 @@ func run(c *core.C) {
 	c.Set("channels", len(channels))
 	c.Set("module_accounts", len(names))
 	c.Set("max_segments", maxSeg)
-	c.Set("distinct_nontrivial", traced+pairs)
-	c.Set("rule", "every '/'-joined string of 1..max_segments segments over {a, transfer, channel-1, 07-tendermint-1, channel-x, empty}; a path is in the quantifier when packet-data validation accepts it; non-trivial = distinct accepted paths that parse with at least one hop, plus distinct valid (port, channel) pairs whose escrow address was compared with all others")
+	c.Set("distinct_nontrivial", traced+pairs+len(fst.distinctPaths))
+	c.Set("rule", "every '/'-joined string of 1..max_segments segments over {a, transfer, channel-1, 07-tendermint-1, channel-x, empty}; a path is in the quantifier when packet-data validation accepts it; non-trivial = distinct accepted paths that parse with at least one hop, plus distinct valid (port, channel) pairs whose escrow address was compared with all others, plus distinct voucher paths created by the receive-flow part (every sequence of <= flow_depth complete transfers {source chain} x {link} x {held denomination incl. received vouchers} through the real MsgTransfer / MsgRecvPacket handlers of chains joined by two links with overlapping channel identifiers; after every receive every circulating ibc/H voucher of every chain must be recorded under exactly H = SHA-256(its path))")
+	c.Assume("receive-flow part: counterparty consensus, storage commit and validator signing are played by the harness (engine K: real IAVL proofs and signed headers verified by the unmodified 07-tendermint client); one user per chain sends one unit per transfer with a far timeout; acknowledgements are not relayed")
 	c.Assume("crypto/sha256 and encoding/hex of the Go standard library are the reference for the voucher formula")
 	c.Assume("acceptance by ICS-20 = FungibleTokenPacketData.ValidateBasic (what UnmarshalPacketData and the send path apply to packet data)")
 }
